@@ -104,6 +104,7 @@ class Contract:
         self.property_ids = tuple(d.get('properties', ()))
         self.doc = (klass.__doc__ or '').strip()
         self.timeout_ms = d.get('timeout_ms', 10000)
+        self.min_timeout_ms = d.get('min_timeout_ms', 0)     # large composite functions: per-query floor
         self.path_limit = d.get('path_limit', 4000)
         self.setup = d.get('setup')          # optional symbolic set-up: fn(ip, args) run before requires
         # loop<k>_invariant(params..., i, locals...) / loop<k>_modifies(params..., locals...): inductive invariant and
@@ -503,6 +504,13 @@ def havoc(ip: Interp, locs_list: List[Loc]):
     st = ip.st
     for L in locs_list:
         o = L.obj
+        if L.kind == 'cls':
+            F0 = st.F(L.attr)
+            F1 = st.fresh('hv', E.sorts.FieldArr)
+            rr = z3.Int('r!h')
+            st.fact(z3.ForAll([rr], z3.Implies(cls_of(rr) != ip.reg.cid(L.cls_name), F1[rr] == F0[rr]), patterns=[F1[rr]]))
+            st.set_arr('F:' + L.attr, F1)
+            continue
         if L.kind == 'each':
             segs = L.segs
             if len(segs) != 1 or segs[0][0] != 'heap':
@@ -544,6 +552,22 @@ def _loc_builtin(kind):
 _B.builtin(loc)(_loc_builtin('field'))
 _B.builtin(loc_list)(_loc_builtin('list'))
 _B.builtin(loc_dict)(_loc_builtin('dict'))
+def loc_cls(cls, attr):     # pragma: no cover  (symbolic only)
+    """frame location: attribute `attr` of ANY object of class `cls` (coarse, for nested containers)"""
+    raise RuntimeError('loc_cls is a specification-only construct')
+
+
+def _loc_cls_builtin(ip, args, kw, fr):
+    c = args[0]
+    name = c.py.__name__ if c.k == 'const' and isinstance(c.py, type) else _B._const_str(c)
+    L = Loc('cls', NONE, _B._const_str(args[1]))
+    L.cls_name = name
+    return SV('loc', py=L)
+
+
+_B.builtin(loc_cls)(_loc_cls_builtin)
+
+
 def _loc_each_builtin(ip, args, kw, fr):
     L = Loc('each', args[0], _B._const_str(args[1]))
     L.segs = ip._segments(args[0])       # snapshot of the list in the state the location is named in
@@ -597,6 +621,8 @@ def _havoc_everything(ip: Interp, allowed: List[Loc], limit):
             attr = name[2:]
             exc = [loc_ref(ip, L.obj) for L in allowed if L.kind == 'field' and L.attr == attr]
             for L in allowed:
+                if L.kind == 'cls' and L.attr == attr:
+                    extra.append(cls_of(r) != ip.reg.cid(L.cls_name))
                 if L.kind == 'each' and L.attr == attr:
                     segs = L.segs
                     if len(segs) != 1 or segs[0][0] != 'heap':
@@ -614,6 +640,12 @@ def _havoc_everything(ip: Interp, allowed: List[Loc], limit):
         if name in ('L_len', 'D_n'):
             st.fact(z3.ForAll([r], new[r] >= 0, patterns=[new[r]]))
         st.set_arr(name, new)
+        # remembered so that reads of objects outside the loop's frame are rewritten to the pre-loop array
+        n0 = z3.simplify(limit - st.alloc0)
+        if z3.is_int_value(n0):
+            if not hasattr(st, 'havoc_info'):
+                st.havoc_info = {}
+            st.havoc_info[new.decl().name()] = (new, cur, exc, bool(extra), n0.as_long())
 
 
 def loop_by_invariant(ip: Interp, node, seg, fr, spec):
@@ -674,6 +706,7 @@ def loop_by_invariant(ip: Interp, node, seg, fr, spec):
         i = z3.Int(f'it!{k}!{st.fresh_n}')
         st.fact(z3.And(0 <= i, i < n))
         inv_assume(i)
+        fr.locals[f'i{k}'] = E.mk_int(i)        # ghost local: invariants of nested loops may speak about it
         iter_heap = dict(st.heap)
         ip.assign(node.target, ip.seg_element(seg, i), fr)
         try:
@@ -755,6 +788,8 @@ def frame_goal(ip: Interp, pre_heap: Dict[str, Any], post_heap: Dict[str, Any], 
             attr = name[2:]
             exc = [loc_ref(ip, L.obj) for L in allowed if L.kind == 'field' and L.attr == attr]
             for L in allowed:
+                if L.kind == 'cls' and L.attr == attr:
+                    extra.append(cls_of(r) != ip.reg.cid(L.cls_name))
                 if L.kind == 'each' and L.attr == attr:
                     segs = L.segs
                     if len(segs) == 1 and segs[0][0] == 'heap':
@@ -903,7 +938,7 @@ def verify_function(target: str, only: Optional[str] = None, timeout_ms: Optiona
             if 'v' not in lemma_box:
                 lemma_box['v'] = congruence_lemmas(ip, shared, base_pc)
             return lemma_box['v']
-        discharge(res, obligations, timeout_ms or con.timeout_ms, only, lemmas_thunk, small_scope=bound is not None, simp=make_peeler(ip))
+        discharge(res, obligations, max(timeout_ms or con.timeout_ms, con.min_timeout_ms), only, lemmas_thunk, small_scope=bound is not None, simp=make_peeler(ip))
     except Unsupported as u:
         res.unsupported = str(u)
     except Exception:
@@ -1221,9 +1256,21 @@ def make_peeler(ip: Interp):
                     out.append(x)
                 stack.extend(x.children())
 
-    def simp(e):
+    def peel_entailed(arr, r, entails):
+        cur = arr
+        while z3.is_app(cur) and cur.decl().kind() == z3.Z3_OP_STORE:
+            idx = cur.arg(1)
+            if idx.eq(r):
+                return z3.simplify(cur.arg(2))
+            if ip.provably_distinct(r, idx) or entails(r != idx):
+                cur = cur.arg(0)
+                continue
+            break
+        return z3.simplify(cur[r])
+
+    def simp(e, entails=None):
         i = e.get_id()
-        if i in memo:
+        if entails is None and i in memo:
             return memo[i][1]
         cur = e
         for _ in range(4):
@@ -1234,13 +1281,14 @@ def make_peeler(ip: Interp):
                 r = c.arg(1)
                 if r.sort() != I or not ground(c):
                     continue
-                new = ip.peel(c.arg(0), r)
+                new = ip.peel(c.arg(0), r) if entails is None else peel_entailed(c.arg(0), r, entails)
                 if not new.eq(c):
                     pairs.append((c, new))
             if not pairs:
                 break
             cur = z3.substitute(cur, *pairs)
-        memo[i] = (e, cur)
+        if entails is None:
+            memo[i] = (e, cur)
         keep.append(cur)
         return cur
     return simp
@@ -1249,10 +1297,40 @@ def make_peeler(ip: Interp):
 def discharge(res: FnResult, obligations: List[Obligation], timeout_ms: int, only, lemmas, small_scope=False,
               simp=None):
     if simp is not None:
+        known: Dict[Any, bool] = {}
+        alive: List[Any] = []           # z3 reuses AST ids once an AST is collected: keep the keys alive
         for ob in obligations:
             if ob.goal is not None:
+                if only and only not in ob.name:
+                    continue
                 ob.pc = [simp(c) for c in ob.pc]
-                ob.goal = simp(ob.goal)
+                g1 = simp(ob.goal)
+                if not z3.is_true(z3.simplify(g1)):
+                    # reads that the syntactic rule could not look through: ask the quantifier-free part of the
+                    # path condition whether the two references can be the same object (50 ms each)
+                    box = {}
+
+                    def entails(f, ob=ob, box=box):
+                        key = (ob.path, f.get_id())
+                        if known.get(key):
+                            return True
+                        if 's' not in box:
+                            qs = mk_solver(50)
+                            for c in ob.pc:
+                                if not E.has_quantifier(c):
+                                    qs.add(c)
+                            box['s'] = qs
+                        qs = box['s']
+                        qs.push()
+                        qs.add(z3.Not(f))
+                        ok = qs.check() == z3.unsat
+                        qs.pop()
+                        if ok:
+                            known[key] = True
+                            alive.append(f)
+                        return ok
+                    g1 = simp(g1, entails)
+                ob.goal = g1
     groups: Dict[str, List[Obligation]] = {}
     for ob in obligations:
         if only and only not in ob.name:
